@@ -541,6 +541,7 @@ def m_vec(I, ctx, callee, args, crate):
         _store(I, ctx, r, VecV(items[:n])); return ()
     if meth in ("extend_from_slice", "append"):
         o = I.deref(ctx, args[1])
+        if isinstance(o, str): o = VecV(list(o.encode()))
         _store(I, ctx, r, VecV(items + list(o.items)))
         if meth == "append": _store(I, ctx, args[1], VecV([]))
         return ()
@@ -622,6 +623,7 @@ def m_slice(I, ctx, callee, args, crate):
         out = []
         for x in v.items:
             x = I.deref(ctx, x)
+            if isinstance(x, str): x = VecV(list(x.encode()))
             if not isinstance(x, VecV): raise Unsupported("concat of opaque bytes")
             out.extend(x.items)
         return VecV(out)
